@@ -27,8 +27,9 @@
    children running.
    The parameter [prefix] selects the code before the fix of /repo (undeploy ends with
    events_map[name].set(), looked up by name after the await; a deploy waiter waits once and never looks at
-   the event again) or the current code (undeploy sets the event object it cleared; a deploy waiter loops
-   `while not events_map[name].is_set(): await event.wait()`). *)
+   the event again; an undeploy waiter waits once and never looks at the maps again) or the current code
+   (undeploy sets the event object it cleared; a deploy waiter loops `while not events_map[name].is_set():
+   await event.wait()`; an undeploy waiter loops `while name in deployments_map and not event.is_set()`). *)
 From Coq Require Import List Bool Arith.
 Import ListNotations.
 
@@ -311,7 +312,10 @@ Definition micro (tid : nat) (s : st) : st :=
           | Some _ =>
             match alookup n (em s) with
             | None => raise s tid EKey
-            | Some e => wait_event s tid e (FUWait n)
+            | Some e =>
+              if prefix then wait_event s tid e (FUWait n)
+              else if ev_isset s e then top_set s tid (FUWait n)
+              else suspend s tid (WEvent e)     (* resumed at FU: `while name in deployments_map and not set` *)
             end
           end
       | FUWait n =>
